@@ -3427,6 +3427,20 @@ class Constant(Formatter, fmt="%%"):
         return self < other
 
 
+def escape_const(value: Any) -> str:
+    """Return a constant text that escape the special characters of the regular
+    expression, so that the text matches itself only. A space character does
+    not escape.
+
+    Examples:
+        >>> escape_const("data engineer")
+        'data engineer'
+        >>> escape_const("+abc.1")
+        '\\+abc\\.1'
+    """
+    return re.sub(r"([.^$*+?{}\[\]\\|()])", r"\\\1", str(value))
+
+
 def dict2const(
     fmt: DictStr,
     name: str,
@@ -3494,7 +3508,9 @@ def dict2const(
             _ = CustomConstant.prepare_value(v)
             return {
                 f: {
-                    "regex": f"(?P<{convert_fmt_str(f)}>{fmt[f]})",
+                    "regex": (
+                        f"(?P<{convert_fmt_str(f)}>{escape_const(fmt[f])})"
+                    ),
                     "value": fmt[f],
                 }
                 for f in fmt.copy()
